@@ -43,6 +43,7 @@ Theorem C15_save_completes : forall (tmp target : path) (chunks : list bytes) (d
     /\ lookup target (disk sf) = Some (concat chunks)
     /\ lookup tmp (disk sf) = None
     /\ bufs sf = []
+    /\ tails sf = []
     /\ (forall q, q <> tmp -> q <> target -> lookup q (disk sf) = lookup q d0).
 Proof. intros tmp target chunks d0 N. exact (save_completes tmp target N chunks d0). Qed.
 Print Assumptions C15_save_completes.
@@ -71,6 +72,28 @@ Proof.
   destruct (tmp_rename_atomic tmp target N ch1 d0 c1 H1) as [E1|E1]; rewrite E, E1; auto.
 Qed.
 Print Assumptions C15_crash_then_resave.
+
+(* The truncation of the temporary file at open is what makes a stale one irrelevant (the
+   theorems above hold for EVERY d0, stale temporary file included).  Opened without
+   truncation (os.open(tmp, O_WRONLY|O_CREAT), "r+"), a stale temporary file that is longer
+   than the new content survives behind it: the save runs to completion and the storage file
+   holds the new content followed by the tail of the stale one - a mixture that is neither
+   old nor new, for every stale content longer than the new one. *)
+Theorem C15_notrunc_refuted : forall (tmp target : path) (new stale : bytes) (d0 : fs),
+  tmp <> target -> lookup tmp d0 = Some stale -> List.length new < List.length stale ->
+  exists c, In c (crash_states (notrunc_ops tmp target [new]) (init d0))
+    /\ lookup target c = Some (new ++ skipn (List.length new) stale)
+    /\ lookup target c <> Some new.
+Proof.
+  intros tmp target new stale d0 N S L.
+  destruct (notrunc_mixes tmp target new stale d0 N S) as (c & Hin & Hc).
+  exists c. repeat split; try assumption. rewrite Hc. intro E. inversion E as [E'].
+  assert (X : List.length (new ++ skipn (List.length new) stale) = List.length new) by now rewrite E'.
+  rewrite app_length, skipn_length in X.
+  assert (Y : List.length stale - List.length new = 0) by (apply (Nat.add_cancel_l _ _ (List.length new)); now rewrite Nat.add_0_r).
+  apply Nat.sub_0_le in Y. exact (Nat.lt_irrefl _ (Nat.lt_le_trans _ _ _ L Y)).
+Qed.
+Print Assumptions C15_notrunc_refuted.
 
 (* The protocol used before commit d7405e0 (open the storage file itself with "w"): for
    every non-empty old and new content there is a crash point - right after the open -
@@ -108,9 +131,17 @@ Proof. vm_compute. intuition. Qed.
 
 Example C15_ex_final :
   exec (save_ops 1 0 [[110; 101]%N; [119; 33; 10]%N]) (init [(0, [111; 108; 100]%N); (1, [9; 9]%N)])
-  = Some {| disk := [(0, [110; 101; 119; 33; 10]%N)]; bufs := [] |}.
+  = Some {| disk := [(0, [110; 101; 119; 33; 10]%N)]; bufs := []; tails := [] |}.
 Proof. vm_compute. reflexivity. Qed.
 
 Example C15_ex_inplace :
   In [(0, [])] (crash_states (inplace_ops 0 [[110; 101; 119]%N]) (init [(0, [111; 108; 100]%N)])).
+Proof. vm_compute. intuition. Qed.
+
+(* two generations: a save of a long content was interrupted after its temporary file was
+   written; the next save, of a short content, opens it without truncation *)
+Example C15_ex_notrunc_mixture :
+  exec (notrunc_ops 1 0 [[66; 10]%N]) (init [(0, [111]%N); (1, [65; 65; 65; 65; 10]%N)])
+  = Some {| disk := [(0, [66; 10]%N)]; bufs := []; tails := [(0, [65; 65; 65; 65; 10]%N)] |}
+  /\ In [(0, [66; 10; 65; 65; 10]%N)] (crash_states (notrunc_ops 1 0 [[66; 10]%N]) (init [(0, [111]%N); (1, [65; 65; 65; 65; 10]%N)])).
 Proof. vm_compute. intuition. Qed.
